@@ -12,3 +12,7 @@ def run(run):
                 'non-trivial = model with at least one expected edge; distinct by (language, assets, links)')
     run.assumptions = ['existence status compared only when the transitive interval determines it']
     graphgen.run_plan(run, graphgen.is_c02, quick)
+    # the uniqueness clause along API histories, including those at which the rename policy collides with a live name
+    run.gen_replay('Gen_Model', 'Gen_Model.cfg', 'harness.replay_model_graph', {'langs': run.libs()},
+                   env={'VERIF_LANG': 'LTiny', 'VERIF_DEPTH': 3, 'VERIF_MAXREJ': 0}, timeout=1500,
+                   name='attack graph after every accepted ModelSM behaviour of depth 3 (rename collisions included)')
